@@ -111,12 +111,14 @@ const Changelog = `- semver: "1.1.0-1"
   changes:
     - note: "first release note"
 - semver: "0.9.0"
-  date: "2009-10-01T10:00:00Z"
+  date: "2009-10-01T12:00:00+02:00"
   changes:
     - note: "entry without packager"
 - semver: "0.8.0"
   date: "2009-09-01T09:00:00Z"
   packager: "Jane Roe <jane@example.com>"
+  deb:
+    urgency: high
 `
 
 // BigChangelog renders 240 changelog entries (about 40 KB as Debian changelog text, about 2 KB gzipped).
